@@ -214,7 +214,7 @@ func (cr *concRun) checkConcIter() {
 		yielded := map[int]bool{}
 		seenK := map[int]int{}
 		seenV := map[int]int{}
-		for _, e := range I.Res.Entries {
+		for ei, e := range I.Res.Entries {
 			k, v, hasK, hasV := e.K, e.V, kind != "values", kind != "keys"
 			if !hasK && hasV {
 				if info := ins[v]; info != nil {
@@ -244,24 +244,56 @@ func (cr *concRun) checkConcIter() {
 					cr.fail(props, "iter.stale-value", k, "%s (task %d, invoked at %d) yielded key %d value %d, whose removal (%s) had been reported and completed at %d, before the traversal began", kind, I.Task, I.Call, k, v, removedCause[v], end)
 				}
 			}
-			// expired before the traversal began: upper bound of the deadline
-			if builtin && hasK && !setExp[k] && cfg.ExpD > 0 {
-				ub := int64(-1 << 62)
-				known := true
-				for _, a := range mayTouch[k] {
-					if a.call < I.Ret { // could have set or extended the deadline before I looked
-						if a.ret >= I.Call {
-							known = false // still running when I began: no bound
-							break
+			// expired before the traversal looked at it: the traversal examines element i after the loop
+			// body of element i-1 returned (for the first element: after it was invoked), so the clock
+			// at that moment is a lower bound of the clock it checked the deadline with. Upper bound
+			// of the deadline: every operation on the key that could have set or extended it and was
+			// invoked before this element was yielded must have returned by then; its clock at return
+			// plus the longest lifetime any calculator gives this (key, value).
+			lbNow, lbTick, yieldTick := I.Now, I.Call, I.Ret
+			if ei > 0 && ei-1 < len(I.Res.IterNow) {
+				lbNow, lbTick = I.Res.IterNow[ei-1], I.Res.IterTick[ei-1]
+			}
+			if ei < len(I.Res.IterTick) {
+				yieldTick = I.Res.IterTick[ei]
+			}
+			if cfg.withExpiry() && hasK && !setExp[k] {
+				life := int64(0)
+				switch {
+				case builtin:
+					life = cfg.ExpD
+				case cfg.Expiry == "custom" && hasV:
+					c, u, rd := cfg.expCreate(k, v), cfg.expUpdate(k, v), cfg.expRead(k, v)
+					if c > 0 && u > 0 { // a zero means "keep the current deadline": no bound from this value alone
+						life = c
+						if u > life {
+							life = u
 						}
-						if a.now > ub {
-							ub = a.now
+						if rd > life {
+							life = rd
 						}
 					}
 				}
-				if known && ub > -1<<62 && satAdd(ub, cfg.ExpD) <= I.Now {
-					cr.probe["conc-iter-expired-yield-checked"]++
-					cr.fail(P("C03", "C15"), "iter.expired-yielded", k, "%s (task %d, invoked at %d, clock %d) yielded key %d although every operation that could have set or extended its deadline had returned by clock %d and the lifetime is %d", kind, I.Task, I.Call, I.Now, k, ub, cfg.ExpD)
+				if life > 0 {
+					ub := int64(-1 << 62)
+					known := true
+					for _, a := range mayTouch[k] {
+						if a.call < yieldTick { // could have set or extended the deadline before it was yielded
+							if a.ret > lbTick {
+								known = false // possibly still running when the traversal looked: no bound
+								break
+							}
+							if a.now > ub {
+								ub = a.now
+							}
+						}
+					}
+					if known && ub > -1<<62 {
+						cr.probe["conc-iter-deadline-bound-known"]++
+						if satAdd(ub, life) <= lbNow {
+							cr.fail(P("C03", "C15"), "iter.expired-yielded", k, "%s (task %d, invoked at %d) yielded key %d (element %d) although the clock had reached %d before the traversal looked at it, every operation that could have set or extended its deadline had returned by clock %d, and no calculator gives it a lifetime above %d", kind, I.Task, I.Call, k, ei, lbNow, ub, life)
+						}
+					}
 				}
 			}
 			if (kind == "hottest" || kind == "coldest") && cfg.withExpiry() && e.Exp != 0 && e.Exp <= I.Now {
@@ -324,6 +356,16 @@ func (cr *concRun) checkConcIter() {
 					if R.ret >= W.call && R.call <= I.Ret {
 						ok = false
 						break
+					}
+				}
+				if ok && cfg.withExpiry() {
+					// any write of the key that overlaps or follows W may be the one whose value is
+					// current; it computed its deadline from a clock sample as old as its invocation
+					for _, A := range mayInstall[k] {
+						if A.ret >= W.call && A.call <= I.Ret && satAdd(A.nowCall, cfg.ExpD) <= I.NowRet {
+							ok = false
+							break
+						}
 					}
 				}
 				if ok {
@@ -395,8 +437,8 @@ func (cr *concRun) checkRejectedLoads() {
 				bad(h.Res.V, "Get returned it")
 			}
 		case "bulkget":
-			for _, v := range h.Res.Map {
-				bad(v, "BulkGet returned it")
+			for _, k := range sortedKeys(h.Res.Map) {
+				bad(h.Res.Map[k], "BulkGet returned it")
 			}
 		case "all", "values", "hottest", "coldest":
 			for _, e := range h.Res.Entries {
